@@ -19,9 +19,9 @@
 (* does not reset retries).                                                               *)
 EXTENDS Naturals, Sequences, FiniteSets, TLC, PoolLifeProps
 
-CONSTANTS Fix, MaxOps, MaxW, Kinds, Forces, ReuseKeys, NoReinit, Hist
+CONSTANTS Fix, MaxOps, MaxW, Kinds, Plans, Free, ReuseKeys, NoReinit, Hist
 
-VARIABLES force,      \* scenario: "none" | "false"
+VARIABLES plan,       \* scenario: [id, force ("none" | "false"), ops]; ops is followed when Free = FALSE
           ws,         \* workers ever created: sequence of [kind, os, stuck, key, owned]
           reg,        \* pool._workers: set of <<key, wid>>
           closedIds,  \* pool._closed (ids of workers that died during a run; never reset)
@@ -30,82 +30,82 @@ VARIABLES force,      \* scenario: "none" | "false"
           restarted,  \* wids restarted since the previous run
           pc, todo, graceful,   \* _close in progress: workers still to clean up
           nops, steps, h
-vars == <<force, ws, reg, closedIds, retries, poolClosed, nextKey, nrun, restarted, pc, todo, graceful, nops, steps, h>>
+vars == <<plan, ws, reg, closedIds, retries, poolClosed, nextKey, nrun, restarted, pc, todo, graceful, nops, steps, h>>
 
+force == plan.force
+Go(name) == Free \/ (Len(h) < Len(plan.ops) /\ plan.ops[Len(h) + 1] = name)
 W == 1..Len(ws)
 Keys == {kw[1] : kw \in reg}
 RegW == {kw[2] : kw \in reg}
-WidOf(k) == (CHOOSE kw \in reg : kw[1] = k)[2]
-IsProc(w) == ws[w].kind # "thread"
+IsProcX(wsx, w) == wsx[w].kind # "thread"
+IsProc(w) == IsProcX(ws, w)
 Alive(w) == ws[w].os = "alive"
-AliveOwned == Cardinality({w \in W : ws[w].owned /\ IsProc(w) /\ Alive(w)})
-LiveUnreg  == Cardinality({w \in W : IsProc(w) /\ Alive(w) /\ w \notin RegW})
+AliveOwnedOf(wsx) == Cardinality({w \in 1..Len(wsx) : wsx[w].owned /\ IsProcX(wsx, w) /\ wsx[w].os = "alive"})
+LiveUnregOf(wsx, regx) == Cardinality({w \in 1..Len(wsx) : IsProcX(wsx, w) /\ wsx[w].os = "alive" /\ w \notin {kw[2] : kw \in regx}})
+AliveOwned == AliveOwnedOf(ws)
 
-Init == /\ force \in Forces /\ ws = <<>> /\ reg = {} /\ closedIds = {} /\ retries = {} /\ poolClosed = FALSE
+Init == /\ plan \in Plans /\ ws = <<>> /\ reg = {} /\ closedIds = {} /\ retries = {} /\ poolClosed = FALSE
         /\ nextKey = 1 /\ nrun = 0 /\ restarted = {} /\ pc = "idle" /\ todo = {} /\ graceful = TRUE
         /\ nops = 0 /\ steps = <<>> /\ h = <<>>
 
-Obs(op, outcome, closing, extra, dgw, rnw) ==
-   [op |-> op, outcome |-> outcome, closing |-> closing, alive_owned |-> AliveOwned', live_unreg |-> LiveUnreg',
+\* the observables of a completed operation; wsx, regx = workers and registry AFTER the operation
+Obs(op, outcome, closing, extra, dgw, rnw, wsx, regx) ==
+   [op |-> op, outcome |-> outcome, closing |-> closing, alive_owned |-> AliveOwnedOf(wsx), live_unreg |-> LiveUnregOf(wsx, regx),
     extra |-> extra, dead_got_work |-> dgw, restarted_no_work |-> rnw]
-Done(name, op, outcome, closing, extra, dgw, rnw) ==
+Done(name, o) ==
    /\ nops' = nops + 1
-   /\ steps' = IF Hist THEN Append(steps, Obs(op, outcome, closing, extra, dgw, rnw)) ELSE <<Obs(op, outcome, closing, extra, dgw, rnw)>>
+   /\ steps' = IF Hist THEN Append(steps, o) ELSE <<o>>
    /\ h' = IF Hist THEN Append(h, name) ELSE h
-Simple(name, op, outcome) == Done(name, op, outcome, "F", 0, 0, 0)
-Idle == pc = "idle" /\ nops < MaxOps
+Simple(name, op, outcome, wsx, regx) == Done(name, Obs(op, outcome, "F", 0, 0, 0, wsx, regx))
+Idle == pc = "idle" /\ (IF Free THEN nops < MaxOps ELSE Len(h) < Len(plan.ops))
 NewW(kind, key, owned) == [kind |-> kind, os |-> "alive", stuck |-> FALSE, key |-> key, owned |-> owned]
 
-AddOk(kind) ==
-  /\ Idle /\ Len(ws) < MaxW
+AddLike(name, op, kind) ==
+  /\ Idle /\ Go(name) /\ Len(ws) < MaxW
   /\ IF poolClosed /\ "closedguard" \in Fix
-     THEN UNCHANGED <<ws, reg, nextKey>> /\ Simple("add:" \o kind, "add", "raised")
-     ELSE /\ ws' = Append(ws, NewW(kind, nextKey, TRUE))
-          /\ reg' = reg \cup {<<nextKey, Len(ws) + 1>>} /\ nextKey' = nextKey + 1
-          /\ Simple("add:" \o kind, "add", "ok")
-  /\ UNCHANGED <<force, closedIds, retries, poolClosed, nrun, restarted, pc, todo, graceful>>
+     THEN UNCHANGED <<ws, reg, nextKey>> /\ Simple(name, op, "raised", ws, reg)
+     ELSE LET wsx == Append(ws, NewW(kind, nextKey, TRUE))
+              regx == reg \cup {<<nextKey, Len(ws) + 1>>} IN
+          /\ ws' = wsx /\ reg' = regx /\ nextKey' = nextKey + 1
+          /\ Simple(name, op, "ok", wsx, regx)
+  /\ UNCHANGED <<plan, closedIds, retries, poolClosed, nrun, restarted, pc, todo, graceful>>
+AddOk(kind) == AddLike("add:" \o kind, "add", kind)
+Attach(kind) == AddLike("attach:" \o kind, "attach", kind)
 AddFail ==                                  \* the constructor raises: nothing exists, nothing is registered
-  /\ Idle
-  /\ Simple("addfail", "addfail", "raised")
-  /\ UNCHANGED <<force, ws, reg, closedIds, retries, poolClosed, nextKey, nrun, restarted, pc, todo, graceful>>
+  /\ Idle /\ Go("addfail")
+  /\ Simple("addfail", "addfail", "raised", ws, reg)
+  /\ UNCHANGED <<plan, ws, reg, closedIds, retries, poolClosed, nextKey, nrun, restarted, pc, todo, graceful>>
 AddDup(o) ==                                \* the new worker's id collides with registered worker o
-  /\ Idle /\ Len(ws) < MaxW /\ o \in RegW /\ ~poolClosed
-  /\ ws' = Append(ws, [NewW(ws[o].kind, ws[o].key, FALSE) EXCEPT !.os = "dead"])        \* worker.terminate() in the except branch
-  /\ reg' = IF "dupguard" \in Fix THEN reg ELSE {kw \in reg : kw[1] # ws[o].key}         \* pops *the id*: the original's entry
-  /\ Simple("dup:" \o ToString(o), "dup", "raised")
-  /\ UNCHANGED <<force, closedIds, retries, poolClosed, nextKey, nrun, restarted, pc, todo, graceful>>
-Attach(kind) ==
-  /\ Idle /\ Len(ws) < MaxW
-  /\ IF poolClosed /\ "closedguard" \in Fix
-     THEN UNCHANGED <<ws, reg, nextKey>> /\ Simple("attach:" \o kind, "attach", "raised")
-     ELSE /\ ws' = Append(ws, NewW(kind, nextKey, TRUE))
-          /\ reg' = reg \cup {<<nextKey, Len(ws) + 1>>} /\ nextKey' = nextKey + 1
-          /\ Simple("attach:" \o kind, "attach", "ok")
-  /\ UNCHANGED <<force, closedIds, retries, poolClosed, nrun, restarted, pc, todo, graceful>>
+  /\ Idle /\ Go("dup:" \o ToString(o)) /\ Len(ws) < MaxW /\ o \in RegW /\ ~poolClosed
+  /\ LET wsx == Append(ws, [NewW(ws[o].kind, ws[o].key, FALSE) EXCEPT !.os = "dead"])      \* worker.terminate() in the except branch
+         regx == IF "dupguard" \in Fix THEN reg ELSE {kw \in reg : kw[1] # ws[o].key}       \* pops *the id*: the original's entry
+     IN ws' = wsx /\ reg' = regx /\ Simple("dup:" \o ToString(o), "dup", "raised", wsx, regx)
+  /\ UNCHANGED <<plan, closedIds, retries, poolClosed, nextKey, nrun, restarted, pc, todo, graceful>>
 
 \* workers that run() would wait for forever: the harness never calls run then
 Blocking == \E w \in RegW : Alive(w) /\ ws[w].stuck /\ ws[w].key \notin closedIds
 Usable(w) == w \in RegW /\ ws[w].key \notin closedIds
 Run(poison) ==
-  /\ Idle /\ ~Blocking
+  /\ Idle /\ ~Blocking /\ Go(IF poison THEN "runp" ELSE "run")
   /\ LET name == IF poison THEN "runp" ELSE "run" IN
      IF poolClosed
-     THEN /\ Done(name, name, "raised", "F", 0, 0, 0)
+     THEN /\ Done(name, Obs(name, "raised", "F", 0, 0, 0, ws, reg))
           /\ UNCHANGED <<ws, closedIds, retries, nrun, restarted>>
      ELSE IF {w \in W : Usable(w)} = {}
-     THEN /\ Done(name, name, "ok", "F", 0, 0, 0)           \* "no workers": returns None before touching the bookkeeping
-          /\ UNCHANGED <<ws, closedIds, retries, nrun, restarted>>
+     THEN /\ Done(name, Obs(name, "ok", "F", 0, 0, Cardinality({w \in restarted : w \in RegW /\ Alive(w)}), ws, reg))
+          /\ UNCHANGED <<ws, closedIds, retries, nrun, restarted>>     \* "no workers": returns None before touching the bookkeeping
      ELSE LET got    == {w \in W : Usable(w) /\ Alive(w)}          \* workers that are handed inputs
               deadw  == {w \in W : Usable(w) /\ ~Alive(w)}         \* found dead at the first enqueue
               stale  == IF NoReinit THEN retries ELSE {}            \* run re-initialises _retries (pool.py:242)
               rnw    == Cardinality({w \in restarted : w \in RegW /\ Alive(w) /\ w \notin got})
+              wsx    == IF poison THEN [w \in W |-> IF w \in got THEN [ws[w] EXCEPT !.os = "dead"] ELSE ws[w]] ELSE ws
           IN /\ nrun' = nrun + 1
              /\ closedIds' = closedIds \cup {ws[w].key : w \in deadw} \cup (IF poison THEN {ws[w].key : w \in got} ELSE {})
-             /\ ws' = IF poison THEN [w \in W |-> IF w \in got THEN [ws[w] EXCEPT !.os = "dead"] ELSE ws[w]] ELSE ws
+             /\ ws' = wsx
              /\ retries' = IF poison /\ got # {} THEN stale \cup {nrun + 1} ELSE (IF got = {} THEN stale ELSE {})
              /\ restarted' = {}
-             /\ Done(name, name, IF poison \/ got = {} THEN "raised" ELSE "ok", "F", Cardinality(stale), 0, rnw)
-  /\ UNCHANGED <<force, reg, poolClosed, nextKey, pc, todo, graceful>>
+             /\ Done(name, Obs(name, IF poison \/ got = {} THEN "raised" ELSE "ok", "F", Cardinality(stale), 0, rnw, wsx, reg))
+  /\ UNCHANGED <<plan, reg, poolClosed, nextKey, pc, todo, graceful>>
 
 \* restart_workers: every registered worker, in dict order; a stuck thread worker cannot be stopped -> RuntimeError, the rest is skipped
 RECURSIVE RestartAll(_, _, _, _)
@@ -122,33 +122,31 @@ RestartAll(ks, wsx, regx, nk) ==
 RECURSIVE SortedKeys(_)
 SortedKeys(S) == IF S = {} THEN <<>> ELSE LET m == CHOOSE x \in S : \A y \in S : x <= y IN <<m>> \o SortedKeys(S \ {m})
 Restart ==
-  /\ Idle
-  /\ IF poolClosed THEN UNCHANGED <<ws, reg, nextKey, restarted>> /\ Simple("restart", "restart", "raised")
+  /\ Idle /\ Go("restart")
+  /\ IF poolClosed THEN UNCHANGED <<ws, reg, nextKey, restarted>> /\ Simple("restart", "restart", "raised", ws, reg)
      ELSE LET r == RestartAll(SortedKeys(Keys), ws, reg, nextKey) IN
           /\ ws' = r.ws /\ reg' = r.reg /\ nextKey' = r.nk /\ restarted' = restarted \cup r.done
-          /\ Simple("restart", "restart", IF r.ok THEN "ok" ELSE "raised")
-  /\ UNCHANGED <<force, closedIds, retries, poolClosed, nrun, pc, todo, graceful>>
+          /\ Simple("restart", "restart", IF r.ok THEN "ok" ELSE "raised", r.ws, r.reg)
+  /\ UNCHANGED <<plan, closedIds, retries, poolClosed, nrun, pc, todo, graceful>>
 
 Kill(w) ==
-  /\ Idle /\ w \in W /\ IsProc(w) /\ Alive(w) /\ ws[w].owned
-  /\ ws' = [ws EXCEPT ![w].os = "dead"]
-  /\ Simple("kill:" \o ToString(w), "kill", "ok")
-  /\ UNCHANGED <<force, reg, closedIds, retries, poolClosed, nextKey, nrun, restarted, pc, todo, graceful>>
+  /\ Idle /\ Go("kill:" \o ToString(w)) /\ w \in W /\ IsProc(w) /\ Alive(w) /\ ws[w].owned
+  /\ LET wsx == [ws EXCEPT ![w].os = "dead"] IN ws' = wsx /\ Simple("kill:" \o ToString(w), "kill", "ok", wsx, reg)
+  /\ UNCHANGED <<plan, reg, closedIds, retries, poolClosed, nextKey, nrun, restarted, pc, todo, graceful>>
 Stick(w) ==
-  /\ Idle /\ w \in RegW /\ Alive(w) /\ ~ws[w].stuck /\ ~poolClosed
-  /\ ws' = [ws EXCEPT ![w].stuck = TRUE]
-  /\ Simple("stick:" \o ToString(w), "stick", "ok")
-  /\ UNCHANGED <<force, reg, closedIds, retries, poolClosed, nextKey, nrun, restarted, pc, todo, graceful>>
+  /\ Idle /\ Go("stick:" \o ToString(w)) /\ w \in RegW /\ Alive(w) /\ ~ws[w].stuck /\ ~poolClosed
+  /\ LET wsx == [ws EXCEPT ![w].stuck = TRUE] IN ws' = wsx /\ Simple("stick:" \o ToString(w), "stick", "ok", wsx, reg)
+  /\ UNCHANGED <<plan, reg, closedIds, retries, poolClosed, nextKey, nrun, restarted, pc, todo, graceful>>
 
 \* close / terminate / exception in the with-body
 CloseBegin(name) ==
-  /\ Idle
+  /\ Idle /\ Go(name)
   /\ IF poolClosed
-     THEN /\ Done(name, name, "ok", "T", 0, 0, 0) /\ UNCHANGED <<pc, todo, graceful, h>>       \* _close returns at once
+     THEN /\ Done(name, Obs(name, "ok", "T", 0, 0, 0, ws, reg)) /\ UNCHANGED <<pc, todo, graceful>>       \* _close returns at once
      ELSE /\ pc' = "closing" /\ todo' = RegW /\ graceful' = (name = "close")
           /\ h' = IF Hist THEN Append(h, name) ELSE h
           /\ UNCHANGED <<nops, steps>>
-  /\ UNCHANGED <<force, ws, reg, closedIds, retries, poolClosed, nextKey, nrun, restarted>>
+  /\ UNCHANGED <<plan, ws, reg, closedIds, retries, poolClosed, nextKey, nrun, restarted>>
 CleanupWorker(w) ==                         \* one thread per worker: close -> wait(timeout) -> terminate(timeout, force)
   /\ pc = "closing" /\ w \in todo
   /\ todo' = todo \ {w}
@@ -157,14 +155,14 @@ CleanupWorker(w) ==                         \* one thread per worker: close -> w
                                 ELSE IF ws[w].kind = "thread" THEN "alive"                      \* never forced
                                 ELSE IF force = "false" THEN "alive"                            \* no terminate / terminate(force=False)
                                 ELSE "dead"]                                                    \* terminate(timeout) with the kind's default force=True
-  /\ UNCHANGED <<force, reg, closedIds, retries, poolClosed, nextKey, nrun, restarted, pc, graceful, nops, steps, h>>
+  /\ UNCHANGED <<plan, reg, closedIds, retries, poolClosed, nextKey, nrun, restarted, pc, graceful, nops, steps, h>>
 CloseEnd ==
   /\ pc = "closing" /\ todo = {}
   /\ pc' = "idle" /\ poolClosed' = TRUE
   /\ nops' = nops + 1
-  /\ LET nm == IF graceful THEN "close" ELSE "terminate" IN
-     steps' = IF Hist THEN Append(steps, Obs(nm, "ok", "T", 0, 0, 0)) ELSE <<Obs(nm, "ok", "T", 0, 0, 0)>>
-  /\ UNCHANGED <<force, ws, reg, closedIds, retries, nextKey, nrun, restarted, todo, graceful, h>>
+  /\ LET o == Obs(IF graceful THEN "close" ELSE "terminate", "ok", "T", 0, 0, 0, ws, reg) IN
+     steps' = IF Hist THEN Append(steps, o) ELSE <<o>>
+  /\ UNCHANGED <<plan, ws, reg, closedIds, retries, nextKey, nrun, restarted, todo, graceful, h>>
 
 Next == \/ \E k \in Kinds : AddOk(k) \/ Attach(k)
         \/ AddFail \/ (\E o \in W : AddDup(o) \/ Kill(o) \/ Stick(o))
@@ -195,6 +193,7 @@ W_ForceFalseSurvivor == ~(poolClosed /\ force = "false" /\ AliveOwned > 0)
 RECURSIVE Join(_, _)
 Join(s, k) == IF k > Len(s) THEN "" ELSE s[k] \o (IF k < Len(s) THEN " " ELSE "") \o Join(s, k + 1)
 RECURSIVE Outs(_, _)
-Outs(s, k) == IF k > Len(s) THEN "" ELSE s[k].outcome \o (IF k < Len(s) THEN " " ELSE "") \o Outs(s, k + 1)
-PathDump == (AtRest /\ nops = MaxOps) => PrintT(<<"PATH", force, Join(h, 1), Outs(steps, 1)>>)
+Outs(s, k) == IF k > Len(s) THEN "" ELSE s[k].outcome \o "/" \o ToString(s[k].alive_owned) \o "/" \o ToString(s[k].live_unreg)
+                                         \o (IF k < Len(s) THEN " " ELSE "") \o Outs(s, k + 1)
+PathDump == (AtRest /\ (IF Free THEN nops = MaxOps ELSE Len(h) = Len(plan.ops))) => PrintT(<<"PATH", plan.id, force, Join(h, 1), Outs(steps, 1)>>)
 =============================================================================
